@@ -7,7 +7,7 @@ ASSUMPTIONS = ["tag literals, required-ness beyond `?`, tuple lengths and union 
 
 
 def run(ctx):
-    out = [T.optional_marker_rule(ctx.syn, "C02"), F.variant_rule(ctx.mir("default")["ts_rs_macros"], "C02", rule="C02.R3"), T.variant_tag_rule(ctx.syn, "C02", rule="C02.R4"), T.struct_dispatch_rule(ctx.syn, "C02", rule="C02.R5"), F.optional_rule(ctx.mir("default")["ts_rs_macros"], "C02"), F.naming_rule(ctx.mir("default")["ts_rs_macros"], "C02", rule="C02.R7"), T.unraw_rule(ctx.syn, "C02", rule="C02.R8"), F.intersection_operand_rule(ctx.mir("default")["ts_rs_macros"], "C02", "C02.R9"), T.operand_scanner_rule(ctx.syn, "C02")]
+    out = [T.optional_marker_rule(ctx.syn, "C02"), F.variant_rule(ctx.mir("default")["ts_rs_macros"], "C02", rule="C02.R3"), T.variant_tag_rule(ctx.syn, "C02", rule="C02.R4"), T.struct_dispatch_rule(ctx.syn, "C02", rule="C02.R5", crate=ctx.mir("default")["ts_rs_macros"]), F.optional_rule(ctx.mir("default")["ts_rs_macros"], "C02"), F.naming_rule(ctx.mir("default")["ts_rs_macros"], "C02", rule="C02.R7"), T.unraw_rule(ctx.syn, "C02", rule="C02.R8"), F.intersection_operand_rule(ctx.mir("default")["ts_rs_macros"], "C02", "C02.R9"), T.operand_scanner_rule(ctx.syn, "C02")]
     for fs in ctx.featuresets():
         m = ctx.mir(fs)
         res = [T.is_option_impl_rule(ctx.syn, m["ts_rs"], "C02"), MM.skip_rule(m["ts_rs_macros"], "C02")]
